@@ -725,7 +725,10 @@ class Oracle:
         for lhs, ops in P.tape:
             acc = {}
             for m, i in ops:
-                acc = Dual.lin(1, acc, m, self.G.get(i, {}))
+                if i not in self.G:
+                    return ("the recorded statement d[%d] = ... uses gradient index %d, which belongs to no operand and was "
+                            "never the left-hand side of a statement" % (lhs, i))
+                acc = Dual.lin(1, acc, m, self.G[i])
             self.G[lhs] = acc
         # judge: values of the whole allocation the target lives in, derivatives of every cell written
         root = a.root
